@@ -1170,6 +1170,39 @@ func (c *Ctx) c13Captcha(f *ircFacts) {
 		r.Check(age, "C13.E11", fi.Name(), "accepts only recent challenges", pos, "dominated by the age test", "a captcha token is accepted regardless of its age")
 	}
 	r.Check(n > 0, "C13.E11", fi.Name(), "has an accepting return", c.P.Pos(fi.Node().Pos()), "found", "verifyCaptchaNonEmpty never accepts")
+	// the token's issue time is decoded the way the challenge writers encode it
+	{
+		gen := c.P.Func("ircserver.(*IRCServer).generateCaptchaURL")
+		encs := map[string]bool{}
+		for _, caller := range c.P.FuncsIn("ircserver") {
+			for _, call := range callsIn(caller, func(fn *types.Func, _ *ast.CallExpr) bool { return gen != nil && fn == gen.Obj }) {
+				for _, cc := range astx.Calls(call, false) {
+					if fn := astx.Callee(caller.Info(), cc); fn != nil && astx.RecvNamed(fn) != nil && astx.RecvNamed(fn).Obj().Pkg().Path() == "time" && strings.HasPrefix(fn.Name(), "Unix") {
+						encs[fn.Name()] = true
+					}
+				}
+			}
+		}
+		dec := ""
+		for _, call := range astx.Calls(fi.Body(), false) {
+			fn := astx.Callee(info, call)
+			if fn == nil || !isFunc(fn, "time", "Unix") || len(call.Args) != 2 {
+				continue
+			}
+			z0, ok0 := astx.ConstInt(info, call.Args[0])
+			z1, ok1 := astx.ConstInt(info, call.Args[1])
+			switch {
+			case ok0 && z0 == 0 && !ok1:
+				dec = "UnixNano"
+			case ok1 && z1 == 0 && !ok0:
+				dec = "Unix"
+			}
+		}
+		if len(encs) > 0 {
+			r.Check(len(encs) == 1 && encs[dec], "C13.E11", fi.Name(), "issue time decoded in the unit it was encoded in", c.P.Pos(fi.Node().Pos()), "writers use LastActivity."+dec+"(), reader rebuilds with the matching time.Unix form",
+				"the captcha challenge writers and verifyCaptchaNonEmpty disagree on the unit of the issue time (seconds vs nanoseconds): the age test never (or always) fires")
+		}
+	}
 	// the MAC key is the network secret, over purpose and challenge
 	secret := c.P.Field("config", "Network", "CaptchaHMACSecret")
 	usesSecret := false
